@@ -59,6 +59,7 @@ func (p *PDUStringer) composeKV(field string, v any, appendBytes bool) string {
 }
 
 func (p *PDUStringer) writeString(s string) {
+	verifhook.Yield("stringer.op")
 	if p.e != nil {
 		return
 	}
@@ -85,6 +86,7 @@ func (p *PDUStringer) OmitWrite(k, v string) {
 }
 
 func (p *PDUStringer) String() string {
+	verifhook.Yield("stringer.op")
 	if p.e != nil {
 		return fmt.Sprintf("<%s: %s>", p.op, p.e.Error())
 	}
